@@ -60,10 +60,10 @@ def filter_empty(args: dict, meta: dict, info: dict):
             val = ""
 
         if val == "":
-            if key in meta:
-                del meta[key]
-            if key in info:
-                del info[key]
+            # remove the field from the dictionary that setting it writes to
+            target = info if key in ("comment", "source", "private") else meta
+            if key in target:
+                del target[key]
             del args[key]
             logger.debug("removeing empty fields %s", val)
 
